@@ -87,6 +87,9 @@ Record imgfacts := mkImg {
   im_in_index : iexp;       (* in[...]  *)
   im_out_index : iexp;      (* out[...] *)
   im_fwrite_count : iexp;   (* elements of sizeof(COMP_T) written per row *)
+  im_scratch_once : bool;   (* out = STACK_BUFFER(COMP_T, <count>) = (COMP_T* )alloca(sizeof(COMP_T) * <count>) ONCE, before the row loop,
+                               and no other alloca in the function: alloca memory is released only at return *)
+  im_scratch_count : iexp;  (* <count>: elements of the row scratch buffer *)
   im_header_wh : bool;      (* fprintf(file, header, sizeX, sizeY) before the loops *)
   im_trailer_newline : bool (* fprintf(file, "\n") after them *)
 }.
@@ -107,7 +110,8 @@ Definition img_check (g : imgfacts) : bool :=
   im_nest_ok g && loopf_eqb (im_loop_y g) (m_loop VSizeY) && loopf_eqb (im_loop_x g) (m_loop VSizeX)
   && loopf_eqb (im_loop_c g) (m_loop VNComp)
   && iexp_eqb (im_row g) m_row && iexp_eqb (im_in_index g) m_in_index && iexp_eqb (im_out_index g) m_out_index
-  && iexp_eqb (im_fwrite_count g) m_count && im_header_wh g && im_trailer_newline g.
+  && iexp_eqb (im_fwrite_count g) m_count && im_scratch_once g && iexp_eqb (im_scratch_count g) m_count
+  && im_header_wh g && im_trailer_newline g.
 
 Definition env_of (f : fmt) (w h y x c : N) : ienv :=
   mkEnv (Z.of_N x) (Z.of_N y) (Z.of_N c) (Z.of_N w) (Z.of_N h) (Z.of_N (f_ncomp f)) (Z.of_N (f_pixcomp f)) (f_flip f).
@@ -142,6 +146,19 @@ Proof.
   match goal with H : iexp_eqb (im_row g) _ = true |- _ => rewrite (iexp_eqb_eq _ _ H) end.
   match goal with H : iexp_eqb (im_in_index g) _ = true |- _ => rewrite (iexp_eqb_eq _ _ H) end.
   apply model_index; assumption.
+Qed.
+
+(* the writer's extra stack is one row: the scratch buffer is allocated once and holds N_COMP * sizeX
+   components, whatever the height *)
+Lemma img_check_scratch g f w h y x c :
+  img_check g = true ->
+  im_scratch_once g = true /\ evalZ (env_of f w h y x c) (im_scratch_count g) = Z.of_N (f_ncomp f * w).
+Proof.
+  unfold img_check. intro H.
+  repeat match goal with H : _ && _ = true |- _ => apply andb_true_iff in H; destruct H end.
+  split; [assumption|].
+  match goal with H : iexp_eqb (im_scratch_count g) _ = true |- _ => rewrite (iexp_eqb_eq _ _ H) end.
+  unfold m_count, env_of. cbn [evalZ v_ncomp v_sx]. lia.
 Qed.
 
 (* the output slot of (x, c) is the position of its read in Model.row_reads *)
@@ -183,6 +200,10 @@ Inductive seekk := SeekIfPastOne   (* if (fout.tellp() > streampos(1)) fout.seek
                  | SeekAlways      (* fout.seekp(-1, cur);                                   *)
                  | SeekNone | SeekOther.
 Inductive scopek := PerThread | PerChunk | ScopeOther.
+Inductive strk := StrFindOrInsert   (* if (!str) return nullptr; fnd = stringCache.find(str);
+                                        if (fnd == end) { en = make_shared<string>(str); stringCache[str] = en; return en->c_str(); }
+                                        return fnd->second->c_str(); *)
+                | StrOther.
 Inductive regk := RegFindOrCreate   (* fnd = threadTrace.find(id); if (fnd == end) { l = make_shared; threadTrace[id] = l; return l; } return fnd->second; *)
                 | RegStoreAlways    (* l = make_shared; threadTrace[id] = l; return l;   (whatever was stored under id is replaced) *)
                 | RegOther.
@@ -208,6 +229,9 @@ Record trfacts := mkTr {
   tr_tid_counter : bool;        (* int nextTid = 0; printed as "tid"; ++nextTid per thread             *)
   tr_registry : regk;           (* getThreadTraceList                                                  *)
   tr_reg_lock_first : bool;     (* its first statement takes threadTraceMutex (lock_guard)             *)
+  tr_strcache : strk;           (* getCachedString                                                     *)
+  tr_tel_fields : bool;         (* ThreadEventList's data members are exactly events, threadName, stringCache: no other state *)
+  tr_names_via_cache : bool;    (* every name / category stored in an event went through getCachedString *)
   tr_tls_cache : bool           (* static thread_local threadEventList, filled once by initThreadEventList via
                                    getThreadTraceList(this_thread::get_id()); the recording entry points call it first *)
 }.
@@ -215,12 +239,13 @@ Record trfacts := mkTr {
 Definition cmpop_eqb a b := match a, b with CGe, CGe | CGt, CGt | CEq, CEq => true | _, _ => false end.
 Definition seekk_eqb a b := match a, b with SeekIfPastOne, SeekIfPastOne | SeekAlways, SeekAlways | SeekNone, SeekNone => true | _, _ => false end.
 Definition scopek_eqb a b := match a, b with PerThread, PerThread | PerChunk, PerChunk => true | _, _ => false end.
+Definition strk_eqb a b := match a, b with StrFindOrInsert, StrFindOrInsert => true | _, _ => false end.
 Definition regk_eqb a b := match a, b with RegFindOrCreate, RegFindOrCreate | RegStoreAlways, RegStoreAlways => true | _, _ => false end.
 
 (* the facts Model.v was written from *)
 Definition model_tr : trfacts :=
   mkTr 8192 CGe true 8192 true true true 4 4 0 SeekIfPastOne true PerThread true true true 100 true
-       RegFindOrCreate true true.
+       RegFindOrCreate true StrFindOrInsert true true true.
 
 Definition tr_eqb (a b : trfacts) : bool :=
   N.eqb (tr_chunk a) (tr_chunk b) && cmpop_eqb (tr_cmp a) (tr_cmp b) && Bool.eqb (tr_empty_or a) (tr_empty_or b)
@@ -233,6 +258,8 @@ Definition tr_eqb (a b : trfacts) : bool :=
   && Bool.eqb (tr_stray_end_break a) (tr_stray_end_break b) && Bool.eqb (tr_end_top_pop a) (tr_end_top_pop b)
   && N.eqb (tr_long_threshold a) (tr_long_threshold b) && Bool.eqb (tr_tid_counter a) (tr_tid_counter b)
   && regk_eqb (tr_registry a) (tr_registry b) && Bool.eqb (tr_reg_lock_first a) (tr_reg_lock_first b)
+  && strk_eqb (tr_strcache a) (tr_strcache b) && Bool.eqb (tr_tel_fields a) (tr_tel_fields b)
+  && Bool.eqb (tr_names_via_cache a) (tr_names_via_cache b)
   && Bool.eqb (tr_tls_cache a) (tr_tls_cache b).
 
 (* the parts of the model that depend on these facts, with the facts as a parameter *)
@@ -270,6 +297,13 @@ Definition reg_attach_of (f : trfacts) (r : reg) (id : N) : reg :=
          end
   end.
 
+(* getCachedString as the facts describe it (only the find-or-insert shape has a meaning) *)
+Definition sc_lookup_of (f : trfacts) (c : scache) (p : N) (text : str) : option (str * scache) :=
+  match tr_strcache f with
+  | StrFindOrInsert => if tr_tel_fields f then Some (sc_lookup c p text) else None
+  | StrOther => None
+  end.
+
 Definition reg_step_of (f : trfacts) (r : reg) (o : rop) : reg :=
   match o with
   | RAttach id => reg_attach_of f r id
@@ -304,7 +338,7 @@ Proof. reflexivity. Qed.
 (* why the find-or-create shape matters: with an unconditional store a thread that receives the id
    of a finished thread makes the recorder forget the finished thread's events *)
 Lemma store_always_loses :
-  let f := mkTr 8192 CGe true 8192 true true true 4 4 0 SeekIfPastOne true PerThread true true true 100 true RegStoreAlways true true in
+  let f := mkTr 8192 CGe true 8192 true true true 4 4 0 SeekIfPastOne true PerThread true true true 100 true RegStoreAlways true StrFindOrInsert true true true in
   let e1 := mkEv KMarker [97] None 0 1 [] in
   let e2 := mkEv KMarker [98] None 0 2 [] in
   let ops := [RAttach 7; RRec 7 e1; RAttach 7; RRec 7 e2] in
@@ -319,7 +353,7 @@ Lemma tr_eqb_fields a b :
   tr_eqb a b = true ->
   tr_chunk a = tr_chunk b /\ tr_cmp a = tr_cmp b /\ tr_empty_or a = tr_empty_or b /\ tr_reserve a = tr_reserve b /\
   tr_seek a = tr_seek b /\ tr_stack_scope a = tr_stack_scope b /\ tr_long_threshold a = tr_long_threshold b /\
-  tr_registry a = tr_registry b.
+  tr_registry a = tr_registry b /\ tr_strcache a = tr_strcache b /\ tr_tel_fields a = tr_tel_fields b.
 Proof.
   unfold tr_eqb. intro H.
   repeat match goal with H : _ && _ = true |- _ => apply andb_true_iff in H; destruct H end.
@@ -332,6 +366,7 @@ Proof.
   - destruct (tr_seek a), (tr_seek b); try discriminate; reflexivity.
   - destruct (tr_stack_scope a), (tr_stack_scope b); try discriminate; reflexivity.
   - destruct (tr_registry a), (tr_registry b); try discriminate; reflexivity.
+  - destruct (tr_strcache a), (tr_strcache b); try discriminate; reflexivity.
 Qed.
 
 Lemma tr_match_sound g :
@@ -341,10 +376,11 @@ Lemma tr_match_sound g :
   (forall pid tid cs st, emit_chunks_of g pid tid cs st = emit_chunks pid tid cs st) /\
   (forall b e, is_long_of g b e = is_long b e) /\
   tr_chunk g = chunk_size /\ tr_reserve g = chunk_size /\
-  (forall r id, reg_attach_of g r id = reg_attach r id).
+  (forall r id, reg_attach_of g r id = reg_attach r id) /\
+  (forall c p text, sc_lookup_of g c p text = Some (sc_lookup c p text)).
 Proof.
-  intro H. destruct (tr_eqb_fields _ _ H) as [H1 [H2 [H3 [H4 [H5 [H6 [H7 H8]]]]]]].
-  split; [|split; [|split; [|split; [|split; [|split]]]]].
+  intro H. destruct (tr_eqb_fields _ _ H) as [H1 [H2 [H3 [H4 [H5 [H6 [H7 [H8 [H9 H10]]]]]]]]].
+  split; [|split; [|split; [|split; [|split; [|split; [|split]]]]]].
   - intro l. rewrite <- model_get_current. unfold get_current_of. rewrite H1, H2, H3. reflexivity.
   - intro s. rewrite <- model_seek. unfold seek_of. rewrite H5. reflexivity.
   - intros pid tid cs. rewrite <- (fun st => model_emit pid tid cs st) || idtac.
@@ -354,4 +390,5 @@ Proof.
   - rewrite H1. reflexivity.
   - rewrite H4. reflexivity.
   - intros r id. unfold reg_attach_of. rewrite H8. reflexivity.
+  - intros c p text. unfold sc_lookup_of. rewrite H9, H10. reflexivity.
 Qed.
